@@ -19,7 +19,7 @@ REPO = os.environ.get("VERIF_REPO", "/repo")
 CACHE = os.path.join(VERIF, ".cache")
 ASTFACTS = os.path.join(VERIF, "engines/astfacts/target/release/astfacts")
 MIRFACTS = os.path.join(VERIF, "engines/mirfacts/target/release/mirfacts")
-KEEP_CACHES = 12
+KEEP_CACHES = int(os.environ.get("VERIF_KEEP_CACHES", "24"))
 
 # (package, crate name, cargo target selector)
 CRATES = [("spirv", "spirv", ["--lib"]), ("rspirv", "rspirv", ["--lib"]), ("rspirv-dis", "rspirv_dis", ["--bin", "rspirv-dis"])]
